@@ -1308,7 +1308,14 @@ fn nested_case(t: &mut Tape, mask: Mask) -> CaseResult {
         }
         let mut before = vec![];
         if prefixed {
-            before.push(name(li));
+            // one prefix in six is cut short (`/f/..` for `fr`, `/en-U/..` for `en-US`): not a locale name
+            let full = name(li);
+            let cut = &full[..full.len() - 1];
+            if t.chance(1, 6) && !cut.is_empty() && !cut.ends_with('-') && !set.iter().any(|i| NAMES[*i as usize] == cut) {
+                before.push(cut.to_string());
+            } else {
+                before.push(full);
+            }
         }
         let style = t.weighted(&[5, 1]) as u8;
         let path = styled_path(&before, &rest, style);
@@ -1346,6 +1353,10 @@ fn nested_case(t: &mut Tape, mask: Mask) -> CaseResult {
         let exact = set.iter().position(|i| NAMES[*i as usize] == first);
         let locale_family_matches = exact.map(|l| !c.table.all_matches(l, &segs[1..]).is_empty()).unwrap_or(false);
         let default_family_matches = !c.table.all_matches(0, &segs).is_empty();
+        if exact.is_none() && set.iter().any(|i| NAMES[*i as usize].len() > first.len() && NAMES[*i as usize].starts_with(first.as_str())) && !first.is_empty() {
+            nontrivial = true;
+            classes.push("first-segment-is-a-strict-prefix-of-a-locale-name".into());
+        }
         let sp = strict_prefix_of(&first, &set);
         if sp.is_some() {
             nontrivial = true;
@@ -1393,6 +1404,12 @@ fn nested_case(t: &mut Tape, mask: Mask) -> CaseResult {
                 let actual = json!({"matched_locale_prefix": matched, "params": params.iter().map(|(k, v)| json!([k, v])).collect::<Vec<_>>()});
                 if !matched.is_empty() {
                     let lname = matched.trim_start_matches('/');
+                    if !set.iter().any(|i| NAMES[*i as usize] == lname) {
+                        return Err(Failure {
+                            signature: "match-nested-truncated-prefix".into(),
+                            detail: detail("the route match attributes a locale to the path although what it consumed as the locale prefix is not a locale name", actual),
+                        });
+                    }
                     if lname != first {
                         let sig = if first.starts_with(lname) && set.iter().any(|i| NAMES[*i as usize] == lname) {
                             "match-nested-partial-segment"
